@@ -84,6 +84,7 @@ var errTable = [][2]string{
 	{"NVAR size mismatch", "7"},
 	{"unable to construct Invalid", "8"},
 	{"unable to update data in link", "9"},
+	{"NVAR store too small", "a"},
 	{"EOF", "1"},
 }
 
@@ -720,7 +721,29 @@ func mutate(r *Rng, s *gStore) (byte, []byte) {
 		return offs[r.Intn(len(s.entries))]
 	}
 	need := func(n int) bool { return len(b) >= n }
-	switch r.Intn(16) {
+	switch r.Intn(18) {
+	case 16, 17: // GUID index just beyond the table and little or no free space: the table
+		// the parser discovers "grows" over the entries, Assemble must refuse ("store too small")
+		s2 := *s
+		s2.free = r.Pick(0, 0, 1, 15, 16, 17, 31, 32)
+		b = s2.bytes()
+		done := false
+		for i := len(s.entries) - 1; i >= 0 && !done; i-- {
+			e := s.entries[i]
+			if e.fixed == nil && e.attrs&0x8C == 0x80 && len(b) >= offs[i]+11 && (r.Bool() || i == 0) {
+				b[offs[i]+10] = byte(len(s.table) + r.Intn(3))
+				done = true
+			}
+		}
+		if !done && len(s.entries) > 0 { // no indexed entry: turn the first full one into an indexed one
+			for i, e := range s.entries {
+				if e.fixed == nil && e.attrs&0x8C == 0x84 && len(b) >= offs[i]+11 {
+					b[offs[i]+9] &^= 0x04
+					b[offs[i]+10] = byte(len(s.table) + r.Intn(2))
+					break
+				}
+			}
+		}
 	case 0: // Size below the header size (1..9); 0 is emitted separately
 		o := pick()
 		if need(o + 10) {
